@@ -188,7 +188,10 @@ class Contract:
         ghost_returns=None,
         ghost_witness=None,
         stubs=None,
+        trace=None,
     ):
+        # callee key (or "module:Class.*") -> descriptor of the value returned; the call is recorded, not executed
+        self.trace = dict(trace or {})
         self.stubs = dict(stubs or {})  # callee key -> name of a side-car function standing in for it (trusted)
         self.ghost_returns = dict(ghost_returns or {})
         self.ghost_witness = dict(ghost_witness or {})
